@@ -409,3 +409,66 @@ def task_c14_dispatch():
             run.oblige("C14|raise_event[%s]/%s-coroutine-handlers-become-exactly-one-task-each" % (kind, k2),
                        forall(j, implies(in_range(j, H["n"]), z3.Select(H["tasks"], j) == ite(z3.And(z3.BoolVal(bool(want)), z3.Select(H["is_coro"], j)), 1, 0))))
     return task
+
+
+# ---- handler registration through @on / attach_event_handlers: ground scenario executed from the real source -----------------
+TWO_INSTANCES_SRC = '''
+from indi.device import Driver, properties
+from indi.device.events import on, Write, Change, Read
+
+
+class Focuser(Driver):
+    main = properties.Group("MAIN", vectors=dict(
+        pos=properties.NumberVector("POS", elements=dict(x=properties.Number("X", default=1.0), target=properties.Number("TARGET", default=0.0))),
+    ))
+
+    def __init__(self, *a, **k):
+        super().__init__(*a, **k)
+        self.calls = []
+
+    @on(main.pos.x, Write)
+    def on_write_x(self, event):
+        self.calls.append("write")
+
+    @on(main.pos.x, Change)
+    def on_change_x(self, event):
+        self.calls.append("change")
+
+    @on(main.pos.x, Read)
+    def on_read_x(self, event):
+        self.calls.append("read")
+
+
+A = Focuser(name="A")
+B = Focuser(name="B")
+A.main.pos.x.set_value(5.0)
+'''
+
+
+def task_c14_instances():
+    """every handler subscribed to THE ELEMENT's event is invoked exactly once: with two devices of the same driver class the
+    handlers declared with @on are attached per instance; a write to A's element runs A's handlers only (ground obligation)"""
+    def task(I, run):
+        import ast as _ast
+        from pyvc.interp import Env
+        m = IModule("two_instances_scn")
+        m.ns["__name__"] = "two_instances_scn"
+        m.relpath = "<two instances scenario>"
+        env = Env()
+        env.vars = m.ns
+        m.env = env
+        install(I)
+        try:
+            I.exec_block(_ast.parse(TWO_INSTANCES_SRC).body, env, m, "")
+        except IRaise as e:
+            run.fail("C14|instances/scenario-runs", "raised %s" % e)
+            return
+        a, b = m.ns["A"], m.ns["B"]
+        ca = [x for x in a.fields["calls"].items]
+        cb = [x for x in b.fields["calls"].items]
+        w = lambda mm: {"replay_kind": "driver.two_instances"}
+        run.oblige("C14|instances/the-written-device's-Write-and-Change-handlers-run-exactly-once", z3.BoolVal(ca.count("write") == 1 and ca.count("change") == 1),
+                   note="A's handlers saw %r" % (ca,), witness=w)
+        run.oblige("C14|instances/handlers-of-another-instance-of-the-same-driver-class-are-not-invoked", z3.BoolVal(cb == []),
+                   note="B's handlers saw %r" % (cb,), witness=w)
+    return task
